@@ -50,6 +50,12 @@ CHECKS.update({
    note="Trusted: TLC; in-process main(argv) with patched stdio as stand-in for the process (a subprocess sample is compared with it on every run); the library call made next to it is the reference for `what the library computes'.",
    tech="TLA+ CLI state machine (TLC, incl. refuted mutant design) + TLC trace validation of real invocations"),
 })
+CHECKS.update({
+ "C17": dict(engine="imports", cat="model_checking", ref="DESIGN.md §7 C17",
+   text="Imports.tla specifies Target(file, spelling) = Normalize(DirOf(file) + spelling) and builds every case (entry, <= 2/3 hops across directories with abs / ./ / plain spellings, 4-6 working directories, 3 entry spellings, 4 faulty arguments); TLC checks that the spellings it generates designate the intended files, each case is materialised with same-named decoy files in every directory and looked up through the real code, and TLC (Imports_Trace) re-resolves and judges value / error class.",
+   note="Trusted: TLC; the scratch file system layout written by the harness (outside /repo and /verif, removed afterwards). Exhaustive within the tier's directory tree, hop bound and spelling styles.",
+   tech="TLA+ resolution spec, TLC-enumerated layouts executed on the real file system, TLC-judged"),
+})
 import os
 built = {p: m for p, m in CHECKS.items()}
 checks = []
@@ -81,6 +87,8 @@ man = {
     "kind_free_text": "spec/NixText.tla + MC_NixText (names / path texts over character classes) -> real set/set/rm -> spec/NixText_Trace.tla"},
    {"name": "cli", "path": "harness/engines/cli.py", "serves_properties": ["C16"],
     "kind_free_text": "spec/Cli.tla -> real main()/subprocess invocations, chains with redirect -> spec/Cli_Trace.tla"},
+   {"name": "imports", "path": "harness/engines/imports.py", "serves_properties": ["C17"],
+    "kind_free_text": "spec/Imports.tla (layouts, spellings, Target) -> real parse_file/import lookups on a scratch tree -> spec/Imports_Trace.tla"},
  ],
  "checks": checks,
  "notes": "All checks: ./check <ID> [--tier quick|thorough]; VERIF_SEED / VERIF_TIER honoured. Known findings: known_findings.json. See DESIGN.md.",
